@@ -33,6 +33,7 @@ struct Scenario {
   std::function< void(int) > thread;
   std::function< void() > final_check;
   std::function< uint64_t() > hash; // shared state incl. monitor state
+  bool post_points = false;         // also schedule after every modifying atomic operation
 };
 
 // ---------------------------------------------------------------- pool (ThreadSafeVector)
@@ -530,6 +531,66 @@ static Scenario memory_scenario(int nthreads) {
   return s;
 }
 
+// MemorySpace: a buffer freed by one thread and taken by another must arrive
+// empty and must keep what its new owner puts in (release = reset THEN free)
+static Scenario memory_reuse_scenario(size_t size, int cursor_advance) {
+  Scenario s;
+  s.name = fmt("memoryspace-reuse%zu/adv%d", size, cursor_advance);
+  s.nthreads = 2;
+  s.setup = [size, cursor_advance]() {
+    MEM.space.reset(new MemorySpace(size));
+    MEM.owner.assign(size, -1);
+    for (int k = 0; k < cursor_advance; ++k) {
+      const size_t b = MEM.space->get_free_buffer();
+      MEM.space->free_buffer(b);
+    }
+    // thread 0 holds a used buffer
+    const size_t x = MEM.space->get_free_buffer();
+    MEM.owner[x] = 0;
+    for (int i = 0; i < 2; ++i) {
+      const uint_fast32_t k = (*MEM.space)[x].get_next_free_photon();
+      (*MEM.space)[x][k].set_weight(10. + i);
+    }
+  };
+  s.thread = [size](int tid) {
+    if (tid == 0) {
+      for (size_t x = 0; x < size; ++x)
+        if (MEM.owner[x] == 0) {
+          MEM.owner[x] = -1;
+          MEM.space->free_buffer(x);
+          e1::note_progress();
+        }
+    } else {
+      size_t b;
+      while ((b = MEM.space->get_free_buffer()) >= size)
+        cmi_verif::yield_point();
+      if (MEM.owner[b] != -1)
+        viol("memoryspace:double-hand-out", fmt("buffer %zu given to thread %d while thread %d holds it", b, tid, MEM.owner[b]));
+      MEM.owner[b] = tid;
+      if ((*MEM.space)[b].size() != 0)
+        viol("memoryspace:stale-packets", fmt("buffer %zu arrives with %u packets of its previous owner", b, (unsigned)(*MEM.space)[b].size()));
+      const uint_fast32_t before = (*MEM.space)[b].size();
+      for (int i = 0; i < 2; ++i) {
+        const uint_fast32_t k = (*MEM.space)[b].get_next_free_photon();
+        (*MEM.space)[b][k].set_weight(100. + i);
+      }
+      harness_point();
+      if ((*MEM.space)[b].size() != before + 2)
+        viol("memoryspace:packets-lost", fmt("buffer %zu holds %u packets after its owner stored 2", b, (unsigned)(*MEM.space)[b].size()));
+      MEM.owner[b] = -1;
+      MEM.space->free_buffer(b);
+      e1::note_progress();
+    }
+  };
+  s.final_check = []() {
+    if (!MEM.space->is_empty())
+      viol("memoryspace:occupancy", fmt("%zu buffers still counted as active", MEM.space->get_number_of_active_buffers()));
+  };
+  s.hash = nullptr;
+  s.post_points = true;
+  return s;
+}
+
 // ---------------------------------------------------------------- driver
 
 int main(int argc, char **argv) {
@@ -586,7 +647,11 @@ int main(int argc, char **argv) {
     add(counter_scenario(3, variant), false, thorough ? 3 : 2);
   }
   add(memory_scenario(2), false, thorough ? 4 : 3);
+  for (size_t size = 1; size <= 3; ++size)
+    for (int adv = 0; adv < (int)size + 1; ++adv)
+      add(memory_reuse_scenario(size, adv), false, thorough ? 5 : 4);
 
+  const size_t handpicked = runs.size();
   // ---- systematic families: every initial state reachable by a short sequential
   // history x every pair of short concurrent programs
   {
@@ -635,7 +700,11 @@ int main(int argc, char **argv) {
               continue;
             if (!thorough && w.size() == 3 && a.size() + b.size() > 3 && a[0] != 's' && b[0] != 's')
               continue;
-            add(pool_scenario(size, {a, b}, w), true, 0);
+            Scenario ps = pool_scenario(size, {a, b}, w);
+            ps.post_points = a.size() + b.size() <= 2;
+            if (ps.post_points)
+              ps.name += "+post";
+            add(ps, true, 0);
           }
       }
     // queues: tasks 0 (no locks), 1 (lock 0), 2 (locks 0,1), 3 (lock 1), 4 (lock 1), 5 (lock 0)
@@ -669,7 +738,11 @@ int main(int argc, char **argv) {
           for (const std::string &b : {std::string("tu"), std::string("gu")}) {
             if (!thorough && b == "gu" && q.size() > 1 && held < 0)
               continue;
-            add(queue_scenario(label, tl6, 2, q, {a, b}, held), true, 0);
+            Scenario qs = queue_scenario(label, tl6, 2, q, {a, b}, held);
+            qs.post_points = q.size() <= 1 || (a == "u" && b == "tu");
+            if (qs.post_points)
+              qs.name += "+post";
+            add(qs, true, 0);
           }
       }
   }
@@ -704,7 +777,8 @@ int main(int argc, char **argv) {
       return 2;
     }
   } else if (!runs.empty()) {
-    std::rotate(runs.begin(), runs.begin() + (A.seed % runs.size()), runs.end());
+    if (runs.size() > handpicked + 1)
+      std::rotate(runs.begin() + handpicked, runs.begin() + handpicked + (A.seed % (runs.size() - handpicked)), runs.end());
   }
 
   uint64_t total_exec = 0, total_states = 0, total_points = 0;
@@ -746,6 +820,7 @@ int main(int argc, char **argv) {
       e1::sched.max_steps = 20000;
       e1::sched.livelock_yields = 400;
       e1::sched.hash_states = run.unbounded;
+      e1::sched.post_points = sc.post_points;
       e1::sched.shared_hash = sc.hash;
       if (A.replay.empty() && !freopen("/dev/null", "w", stderr)) {
       }
@@ -777,10 +852,10 @@ int main(int argc, char **argv) {
     opt.unbounded = run.unbounded;
     opt.use_hashing = run.unbounded;
     opt.max_bound = run.bound;
-    opt.jobs = W == 1 ? 16 : 2;
+    opt.jobs = W == 1 ? 16 : (ir < handpicked ? 4 : 2);
     opt.exec_timeout = 30.;
     const double remaining = A.deadline - R.elapsed();
-    opt.deadline = std::max(3., std::min(remaining * 0.5, remaining / (double)((runs.size() - ir + W - 1) / W) * 6.));
+    opt.deadline = ir < handpicked ? std::max(5., remaining * 0.4) : std::max(3., std::min(remaining * 0.5, remaining / (double)((runs.size() - ir + W - 1) / W) * 6.));
     e1::ExploreStats st = e1::explore(body, opt);
     total_exec += st.executions;
     total_states += st.distinct_states;
